@@ -250,7 +250,12 @@ def impl_parse_line(line):
 def gen_field(rng, wf_bias=0.85):
     for _ in range(30):
         r = rng.random()
-        if r < 0.12:
+        if r < 0.06:
+            # text that is NOT in Unicode normal form C (combining marks, compatibility singletons, conjoining jamo): a
+            # field is the code points it was given, whatever normalisation would make of them
+            f = rng.choice(["Zoe\u0308", "e\u0301", "\u212b", "\u2126m", "\u1100\u1161", "a\u0323\u0307", "\u0958", "x\u0301y"]) + \
+                rng.choice(["", "", "1", "é"])
+        elif r < 0.18:
             inner = rng.choice(["a, b", "x,y", "", " ", "[a,b], c", "é,漢", '","'])
             f = rng.choice(["f(%s)", "[%s]", "(%s)", "a[%s]b", "((%s))"]) % inner
         else:
